@@ -235,8 +235,12 @@ def step (s : State) (toks : List String) : State × String :=
     | v :: _, some idx =>
       if idx.length ≠ v.shape.length then (s, "skip") else
       let unchecked := (optArg "via" rest).any fun via => via.startsWith "unchecked"
+      -- the unchecked getters are only defined for valid indexes (anything else is undefined
+      -- behaviour): outside the shape the property's answer stands alone
       let model :=
-        if unchecked then showOutcome (fun c => showCellOpt (some c)) (v.getUnchecked idx)
+        if unchecked then
+          if (v.specGet idx).isSome then showOutcome (fun c => showCellOpt (some c)) (v.getUnchecked idx)
+          else "none"
         else showOutcome showCellOpt (v.get idx)
       (s, both (showCellOpt (v.specGet idx)) model)
     | [], _ => (s, "skip")
